@@ -1,6 +1,8 @@
 """Calls: builtins, assumed library contracts (A3), spec functions, contracted repository
 functions (modular: requires checked, ensures assumed) and inlined loop-free helpers."""
 import ast
+import re
+re_result = re.compile(r'\bresult\b')
 import z3
 from .vals import *
 from .ops import *
@@ -808,6 +810,11 @@ class CallMixin:
                 c.returns = {'seq_t': 'val', 'double': 'val', 'idx_t': 'int', 'int': 'int', 'bool': 'bool',
                              '_Bool': 'bool', 'void': None}.get(rt)
             result = self.fresh_result(c, st)
+            if result is None and any(re_result.search(t_) for t_ in c.ensures):
+                # without a result shape every clause about `result` would evaluate to False and be *assumed* -- possibly under a
+                # quantifier, where the literal-False guard below does not see it -- making the caller's proof vacuous
+                raise CannotBind('callee %s is used by contract in %s but its contract declares no `returns` shape although its '
+                                 'postcondition speaks about `result`' % (c.name, self.fname))
             cs2 = st.fork()
             cs2.pc = st.pc
             cs2.vars = dict(bound)
